@@ -101,6 +101,7 @@ func (r *run) corpus(ctx sdk.Context) error {
 	r.runCorpus(ctx, p, ops)
 	r.corpusGaps(ctx)
 	r.corpusZeroFee(ctx)
+	r.corpusBaselines(ctx)
 	return nil
 }
 
@@ -111,6 +112,11 @@ func (r *run) runCorpus(ctx sdk.Context, p amm.PoolInfo, ops []amm.Op) {
 	for _, o := range ops {
 		if strings.HasPrefix(o.Tag, "corpus/cross/") {
 			if a := r.crossAmount(ctx, p, o.Sender, o.ExactIn, o.DenomIn); a != nil {
+				o.Amount = a
+			}
+		}
+		if strings.HasPrefix(o.Tag, "corpus/to/") { // o.Lower carries the tick to stop in
+			if a := r.reachAmount(ctx, p, o.Sender, o.ExactIn, o.DenomIn, o.Lower); a != nil {
 				o.Amount = a
 			}
 		}
@@ -244,28 +250,34 @@ func (r *run) crossAmount(ctx sdk.Context, p amm.PoolInfo, sender int, exactIn b
 		}
 		return true, q.CurrentTick < next
 	}
-	// grow until the tick is crossed (or the swap stops working), then bisect for the smallest such amount
+	// grow until the tick is crossed or, after some amount has worked, the swap stops working (too
+	// much for the liquidity there is); tiny amounts fail with a zero result: grow through them
 	lo, hi := bi(0), bi(1000)
+	seenOK := false
 	for i := 0; ; i++ {
 		ok, did := crossed(hi)
-		if ok && did {
+		if (ok && did) || (!ok && seenOK) {
 			break
 		}
-		if (!ok && hi.Cmp(bi(1000)) > 0) || i > 120 {
+		if i > 130 {
 			return nil
 		}
 		if ok {
+			seenOK = true
 			lo = new(big.Int).Set(hi)
 		}
 		hi = new(big.Int).Mul(hi, bi(2))
 	}
-	for i := 0; i < 200 && new(big.Int).Sub(hi, lo).Cmp(bi(1)) > 0; i++ {
+	for i := 0; i < 300 && new(big.Int).Sub(hi, lo).Cmp(bi(1)) > 0; i++ {
 		mid := new(big.Int).Rsh(new(big.Int).Add(lo, hi), 1)
-		if ok, did := crossed(mid); ok && did {
+		if ok, did := crossed(mid); !ok || did {
 			hi = mid
 		} else {
 			lo = mid
 		}
+	}
+	if ok, did := crossed(hi); !ok || !did {
+		return nil
 	}
 	// a little beyond the tick: +2 % of the amount that just reaches it (at least 1000 units)
 	extra := new(big.Int).Div(hi, bi(50))
@@ -275,6 +287,57 @@ func (r *run) crossAmount(ctx sdk.Context, p amm.PoolInfo, sender int, exactIn b
 	amt := new(big.Int).Add(hi, extra)
 	if ok, _ := crossed(amt); !ok {
 		return nil
+	}
+	return amt
+}
+
+// reachAmount sizes a swap so that it moves the price into tick `target` (up: first amount with
+// tick >= target, down: first amount with tick <= target, found by bisection on discarded cache
+// contexts of the real keeper) plus 1 %, i.e. it stops inside that tick. nil if no amount does it.
+func (r *run) reachAmount(ctx sdk.Context, p amm.PoolInfo, sender int, exactIn bool, din int, target int64) *big.Int {
+	reached := func(a *big.Int) (ok, did bool) {
+		c, _ := ctx.CacheContext()
+		if _, err := r.w.Exec(c, p, amm.Op{Kind: "swap", Sender: sender, ExactIn: exactIn, DenomIn: din, Amount: a}); err != nil {
+			return false, false
+		}
+		q, _, _ := r.w.K.GetPool(c, p.ID)
+		if din == 1 {
+			return true, q.CurrentTick >= target
+		}
+		return true, q.CurrentTick <= target
+	}
+	// grow until the target is reached or, after some amount has worked, the swap stops working (too
+	// much for the liquidity there is); tiny amounts fail with a zero result: grow through them
+	lo, hi := bi(0), bi(1000)
+	seenOK := false
+	for i := 0; ; i++ {
+		ok, did := reached(hi)
+		if (ok && did) || (!ok && seenOK) {
+			break
+		}
+		if i > 130 {
+			return nil
+		}
+		if ok {
+			seenOK = true
+			lo = new(big.Int).Set(hi)
+		}
+		hi = new(big.Int).Mul(hi, bi(2))
+	}
+	for i := 0; i < 300 && new(big.Int).Sub(hi, lo).Cmp(bi(1)) > 0; i++ {
+		mid := new(big.Int).Rsh(new(big.Int).Add(lo, hi), 1)
+		if ok, did := reached(mid); !ok || did {
+			hi = mid
+		} else {
+			lo = mid
+		}
+	}
+	if ok, did := reached(hi); !ok || !did {
+		return nil
+	}
+	amt := new(big.Int).Add(hi, new(big.Int).Div(hi, bi(100)))
+	if ok, _ := reached(amt); !ok {
+		return hi
 	}
 	return amt
 }
@@ -591,4 +654,63 @@ func (r *run) genOp(ctx sdk.Context, p amm.PoolInfo) amm.Op {
 		owner := w.UserIndex(q.Address)
 		return amm.Op{Kind: "increase", Sender: owner, Pid: q.Id, Base: amount(), Quote: amount(), MinBase: z, MinQuote: z, Tag: "increase"}
 	}
+}
+
+// corpusBaselines: positions whose fee-growth-inside baseline is NOT a non-negative vector.  The per-tick
+// growth values are conventions fixed when a tick is initialised (all earlier growth is taken to have
+// happened below a tick at or below the price); only differences matter.  A range whose upper tick is old
+// and was crossed downwards (its value = growth that happened above it) and whose lower tick is
+// younger has a negative growth inside in every denom with such fees - and with fees inside the range
+// after the lower tick was initialised, a mixed-sign one.  The position must neither forfeit what it
+// earns afterwards (baseline treated as 0 although negative) nor be credited growth from before it
+// existed (mixed-sign baseline reset to 0).  Price inside and price below the range; creation and claim.
+func (r *run) corpusBaselines(ctx sdk.Context) {
+	p := r.w.Pools[0]
+	z := bi(0)
+	mk := func(s int, lo, up int64, tag string) amm.Op {
+		return amm.Op{Kind: "create", Sender: s, Lower: lo, Upper: up, Base: bi(1_000_000_000), Quote: bi(1_000_000_000), MinBase: z, MinQuote: z, Tag: "corpus/baseline/" + tag}
+	}
+	to := func(s int, exactIn bool, din int, target int64, tag string) amm.Op {
+		return amm.Op{Kind: "swap", Sender: s, ExactIn: exactIn, DenomIn: din, Lower: target, Amount: bi(1_000_000), Tag: "corpus/to/" + tag}
+	}
+	cl := func(s int, tag string, ids ...uint64) amm.Op {
+		return amm.Op{Kind: "claim", Sender: s, Pids: ids, Tag: "corpus/baseline/" + tag}
+	}
+	first := r.nextID(ctx)
+	w, x, n1, n3, n2, m := first, first+1, first+2, first+3, first+4, first+5
+	r.runCorpus(ctx, p, []amm.Op{
+		mk(0, -40, 40, "W-wide"),
+		mk(1, 5, 15, "X-above-initialises-tick-5"),
+		to(2, true, 1, 9, "up-across-5-to-9"),
+		to(2, false, 0, 1, "exact-out-down-across-5-to-1"),
+		// negative baseline in both denoms: new lower tick, old upper tick crossed downwards, price inside
+		mk(2, -3, 5, "N1-new-lower-old-upper-price-inside"),
+		cl(2, "claim-N1-at-once", n1),
+		to(0, true, 0, -2, "down-inside-N1"),
+		to(0, false, 1, 4, "exact-out-up-inside-N1"),
+		cl(2, "claim-N1", n1),
+		cl(0, "claim-W", w),
+		cl(1, "claim-X", x),
+		// mixed-sign baseline: both ticks old (lower younger than the upper's crossing), fees inside since
+		mk(1, -3, 5, "N3-both-ticks-old-mixed-sign"),
+		to(2, false, 0, 0, "exact-out-down-inside"),
+		to(2, true, 1, 3, "up-inside"),
+		cl(1, "claim-N3-X", n3, x),
+		cl(2, "claim-N1", n1),
+		cl(0, "claim-W", w),
+		// negative baseline, price below the range
+		to(0, true, 0, -8, "down-out-of-the-narrow-ranges"),
+		mk(2, -6, 5, "N2-new-lower-old-upper-price-below"),
+		to(1, true, 1, 2, "up-into-N2-N1-N3"),
+		to(1, false, 0, -1, "exact-out-down-inside"),
+		cl(2, "claim-N2-N1", n2, n1),
+		cl(1, "claim-N3", n3),
+		// the mirror: old lower tick crossed upwards, new upper tick
+		mk(0, -3, 7, "M-old-lower-new-upper"),
+		to(2, false, 1, 6, "exact-out-up-across-5-into-M-only"),
+		to(2, true, 0, 1, "down-back"),
+		cl(0, "claim-M-W", m, w),
+		cl(2, "claim-N2-N1", n1, n2),
+		cl(1, "claim-N3-X", x, n3),
+	})
 }
